@@ -238,8 +238,8 @@ impl DnsCache {
         let entry_name = incoming.get_name().to_string();
 
         // If it is PTR with subtype, store a mapping from the instance fullname
-        // to the subtype in this cache.
-        if incoming.get_type() == RRType::PTR && is_for_us {
+        // to the subtype in this cache (a goodbye adds nothing).
+        if incoming.get_type() == RRType::PTR && is_for_us && incoming.get_record().get_ttl() > 1 {
             let (_, subtype_opt) = split_sub_domain(&entry_name);
             if let Some(subtype) = subtype_opt {
                 if let Some(ptr) = incoming.any().downcast_ref::<DnsPointer>() {
@@ -476,7 +476,26 @@ impl DnsCache {
         }
         self.ptr.retain(|_, records| !records.is_empty());
 
+        if !expired_instances.is_empty() {
+            self.remove_stale_subtypes();
+        }
+
         expired_instances
+    }
+
+    /// Removes the subtype entries of instances whose subtype PTR record is gone.
+    fn remove_stale_subtypes(&mut self) {
+        let ptr = &self.ptr;
+        self.subtype.retain(|instance, sub_domain| {
+            ptr.get(sub_domain).is_some_and(|records| {
+                records.iter().any(|r| {
+                    r.record
+                        .any()
+                        .downcast_ref::<DnsPointer>()
+                        .is_some_and(|dns_ptr| dns_ptr.alias() == instance)
+                })
+            })
+        });
     }
 
     /// Removes all records of a service type: PTR, SRV, TXT records and any ADDR records
@@ -510,6 +529,7 @@ impl DnsCache {
         }
 
         self.ptr.remove(ty_domain);
+        self.remove_stale_subtypes();
 
         // Check all hostnames in `hosts`: for each hostname, check if any SRV record
         // has `hostname` as its host. If no such SRV, remove the ADDR records of this hostname.
@@ -827,6 +847,7 @@ impl DnsCache {
 
         // Remove any PTR entry that no longer has records.
         self.ptr.retain(|_, records| !records.is_empty());
+        self.remove_stale_subtypes();
 
         // Clean up SRV and TXT records for fully removed instances.
         let all_removed: HashSet<&String> = removed_instances.values().flatten().collect();
